@@ -280,6 +280,20 @@ func (w *World) runPath(ex *Explorer, solver *Solver, prefix []Decision, model m
 				case "panic":
 					ps.event("panic", r.reason, "")
 					pr.status = "stop"
+				case "budget":
+					if ex.cfg.BudgetIsViolation {
+						short := r.reason
+						if k := strings.Index(short, " exceeded"); k >= 0 {
+							short = short[:k] + " exceeded"
+						}
+						if len(ps.notes) < 64 {
+							ps.notes = append(ps.notes, "budget: "+r.reason)
+						}
+						ps.event("budget", "does not terminate within the step/call-depth budget: "+short, "")
+						pr.status = "stop"
+					} else {
+						pr.status, pr.reason = r.status, r.reason
+					}
 				default:
 					pr.status, pr.reason = r.status, r.reason
 				}
